@@ -96,11 +96,22 @@ theorem hybrid_iface_values :
 
 /-- The only nesting edges that the extractor sees through dynamic dispatch of a
     `HybridSearchIndex` call to a `*PersistentHybridIndex` method (impossible, see
-    `hybrid_iface_values`) are these three; they are not judged.  Every other edge — in
-    particular a *direct* memtable → memtableQueue nesting — is in `nesting` and is judged. -/
+    `hybrid_iface_values`) are these five; they are not judged.  Every other edge — in
+    particular a *direct* memtable → memtableQueue nesting — is in `nesting` and is judged.
+    (Since 22d1a03 `memtableQueue.add` writes under the queue lock: the direct chain
+    memtableQueue → memtable → hybridSearchIndex → vector / text / metadata index is in `nesting`
+    and goes strictly upwards in `rank`.) -/
 theorem via_store_iface_pinned : nestingViaStoreIface =
-    [("memtable", "PersistentHybridIndex"), ("memtable", "memtable"), ("memtable", "memtableQueue")] := by
+    [("memtable", "PersistentHybridIndex"), ("memtable", "memtable"), ("memtable", "memtableQueue"),
+     ("memtableQueue", "PersistentHybridIndex"), ("memtableQueue", "memtableQueue")] := by
   decide
+
+/-- (D) tie: the locked shape of the rotation model (`rstep true`, hypothesis of
+    `add_never_fails_or_lost`) is what the code does — `memtableQueue.add` / `addWithID` call
+    `memtable.add` / `addWithID` while holding the queue's write lock.  Releasing the queue
+    lock before the write (the former shape, D15) makes this obligation fail. -/
+theorem queue_add_writes_under_lock : queueAddWritesUnderLock =
+    [("memtableQueue.add", true), ("memtableQueue.addWithID", true)] := by decide
 
 /-- **(B) per-run obligation**: `lockorder_acyclic` over the regenerated nesting edges. -/
 theorem lockorder_facts : lockOrderOK rank [] nesting = true := by decide
